@@ -506,6 +506,11 @@ func errStr(err error) string {
 // RunCall executes the client program of a call on cc. It runs in the calling
 // task.
 func (s *Sim) RunCall(cc grpc.ClientConnInterface, r *CallRec) {
+	s.RunCallCtx(cc, r, nil)
+}
+
+// RunCallCtx is RunCall with a caller-supplied base context.
+func (s *Sim) RunCallCtx(cc grpc.ClientConnInterface, r *CallRec, base context.Context) {
 	e := s.E
 	spec := r.Spec
 	defer func() {
@@ -517,6 +522,9 @@ func (s *Sim) RunCall(cc grpc.ClientConnInterface, r *CallRec) {
 		}
 	}()
 	ctx := context.Background()
+	if base != nil {
+		ctx = base
+	}
 	md := mdOf(spec.ReqMD)
 	if !spec.NoTag {
 		md.Set(CallKey, strconv.Itoa(spec.ID))
